@@ -223,10 +223,14 @@ class BaseHTMLProcessor(sgmllib.SGMLParser):
         # Called for each character reference, e.g. '&#160;' will extract '160'
         # Reconstruct the original character reference.
         ref = ref.lower()
-        if ref.startswith("x"):
-            value = int(ref[1:], 16)
-        else:
-            value = int(ref)
+        try:
+            if ref.startswith("x"):
+                value = int(ref[1:], 16)
+            else:
+                value = int(ref)
+        except ValueError:
+            # (int() refuses digit strings of more than 4300 digits)
+            value = -1
 
         if value in _cp1252:
             self.pieces.append("&#%s;" % hex(ord(_cp1252[value]))[1:])
